@@ -88,4 +88,18 @@ CHECKS = {
          '(complete per seed), plus soups, unicode and extreme headers. Any exception other than ElectionProfileError, any accepted profile breaking the invariants of a valid election, any '
          'constructor failure on an accepted option-free profile, or a confirmed hang is a violation.',
     note='Mutation sets are exhaustive per seed file only; the space of all strings is sampled. Budget overruns are re-run alone with 20x budget before being reported.'),
+ 'C10': dict(level='exploration', ref='DESIGN.md 3/C10',
+    technique='relational runtime monitor over two real executions of the same ballots in two presentations (permuted lines, split/merged multipliers, random layout and comments, nicknames); compared on traced raw snapshots, dump, report, json',
+    text='~15k pairs per quick run over all rules and arithmetics (equal-rank profiles under meek/warren included): the variant must produce the same action list with the same raw tallies, '
+         'the same dump and report, and the same JSON apart from cdict.nick.',
+    note='Known finding C10/guarded-stats-depend-on-multipliers (classifier: only the maxDiff/minDiff lines / arithmetic_report differ, arithmetic guarded, variant split or merged multipliers).'),
+ 'C11': dict(level='exploration', ref='DESIGN.md 3/C11',
+    technique='relational runtime monitor over two real executions: a profile vs its renumbering by a random permutation (winners and final tallies by name), and withdrawn-marked vs candidate-deleted profiles (full traced record by name)',
+    text='~28k renumbered pairs and ~28k withdrawn/deleted pairs per quick run over all rules and arithmetics; withdrawn sets biased to candidates holding first preferences; equal-rank profiles included for meek/warren.',
+    note='Renumbered pairs whose guarded statistics show a comparison within 10^3 of the tolerance are not evaluated (non-transitive comparison).'),
+ 'C17': dict(level='exploration', ref='DESIGN.md 3/C17',
+    technique='runtime monitoring: complete enumeration of {absent,v1,v2} x {file layer, caller layer} per option name and rule against a precedence table, recorded layers, observable arithmetic/rule attributes and report header; relational monitor for statutory counts under junk options',
+    text='All 891 layer assignments (11 rules x 9 option names x 9 layer combinations, file layer parsed from real [droop ...] text) are checked for effective value, recorded layers, '
+         'observable effect and the Unused/Overridden header lines; ~17k statutory count pairs with junk options from caller / file / both must be identical in actions, raw snapshots, dump and winners.',
+    note='The declared/forced option tables are transcribed from the rules; assignments refused with UsageError are outside the claim. Enumeration complete for the stated value sets only.'),
 }
